@@ -586,13 +586,17 @@ class RF24:
         """Sets the static payload length feature for each/all data pipes."""
         if pipe_number is None:
             self.payload_length = length
-        else:
+        elif 0 <= pipe_number <= 5:
             self._pl_len[pipe_number] = max(1, min(32, length))
-            self._reg_write(RX_PL_LENG + pipe_number, length)
+            self._reg_write(RX_PL_LENG + pipe_number, self._pl_len[pipe_number])
+        else:
+            raise IndexError("pipe_number must be in range [0, 5]")
 
     def get_payload_length(self, pipe_number: int = 0) -> int:
         """Returns an `int` describing the specified data pipe's static
         payload length."""
+        if not 0 <= pipe_number <= 5:
+            raise IndexError("pipe_number must be in range [0, 5]")
         self._pl_len[pipe_number] = self._reg_read(RX_PL_LENG + pipe_number)
         return self._pl_len[pipe_number]
 
